@@ -213,7 +213,7 @@ def str_to_dpid (s):
   """
   if s.lower().startswith("0x"):
     s = s[2:]
-  s = s.replace("-", "").split("|", 2)
+  s = s.replace("-", "").split("|", 1)
   a = int(s[0], 16)
   if a > 0xffFFffFFffFF:
     b = a >> 48
@@ -222,6 +222,8 @@ def str_to_dpid (s):
     b = 0
   if len(s) == 2:
     b = int(s[1])
+    if b < 0 or b > 0xffFF:
+      raise ValueError("DPID extension does not fit in 16 bits: " + s[1])
   return a | (b << 48)
 strToDPID = str_to_dpid
 
